@@ -298,6 +298,37 @@ func runPB(c *Ctx, s *Sink) {
 			}
 			return true
 		})
+		if Q == "" {
+			// the comparison block may have been extracted into a helper: map its arguments back
+			defs := collectDefs(info, fd)
+			ast.Inspect(fd.Body, func(n ast.Node) bool {
+				call, ok := n.(*ast.CallExpr)
+				if !ok || Q != "" {
+					return true
+				}
+				body, cinfo, bind := c.calleeSource(info, defs, call)
+				if body == nil {
+					return true
+				}
+				ast.Inspect(body, func(k ast.Node) bool {
+					c2, ok := k.(*ast.CallExpr)
+					if !ok || !isCallTo(cinfo, c2, "pkg/obialign.FastLCSScore") || len(c2.Args) < 3 {
+						return true
+					}
+					q, okq := bind[rootObj(cinfo, c2.Args[0])]
+					e, oke := bind[rootObj(cinfo, c2.Args[2])]
+					if okq && oke {
+						if _, plain := ast.Unparen(c2.Args[0]).(*ast.Ident); plain {
+							if _, plain2 := ast.Unparen(c2.Args[2]).(*ast.Ident); plain2 {
+								Q, E = types.ExprString(q), types.ExprString(e)
+							}
+						}
+					}
+					return true
+				})
+				return true
+			})
+		}
 		key := fname + ":threshold:" + T.Name()
 		s.Check(strict, nil, key+":strict", breakPos, "the scan stops only when the shared count is strictly below the threshold",
 			"the scan stops when the shared 4-mer count equals the threshold: a reference sharing exactly the guaranteed minimum of 4-mers (every difference isolated) is a legitimate tie and is never compared")
